@@ -50,6 +50,12 @@ def run(ctx, rep):
     for b in f.body_list:
         if '::tests::' in b.path:
             continue
+        # backend errors only travel through asynchronous code (and closures defined inside it): a synchronous parser
+        # that skips an unrecognised item with `.ok()` discards no storage error
+        root = f.body(b.root) if getattr(b, 'root', None) else None
+        asyncish = b.is_coroutine or '::{closure#0}::' in b.path or (root is not None and (root.is_coroutine or root.is_async_fn))
+        if not asyncish:
+            continue
         for bi, t in b.calls():
             fn = t.get('fn') or ''
             for suf, ai in DISCARD.items():
